@@ -249,7 +249,7 @@ def violation_classes(out, prop, known):
     return real, kn
 
 
-def minimise(mod, case, vclass, known, budget_s=90):
+def minimise(mod, case, vclass, known, budget_s=90, violation=None):
     """Greedy delta debugging: accept the first candidate of mod.shrink(case) that still
     shows a violation of the same class; stop at a fixed point or when the budget ends.
     Runs inside a forked child so that a crash/hang of a candidate cannot take the
@@ -261,9 +261,20 @@ def minimise(mod, case, vclass, known, budget_s=90):
 
     def work():
         build.activate()
+        if hasattr(mod, 'worker_init'):
+            mod.worker_init()
         cur = case
         steps = 0
         t_end = time.monotonic() + budget_s
+        if violation is not None and hasattr(mod, 'shrink_first'):
+            cand = mod.shrink_first(case, violation)
+            if cand is not None:
+                out = safe_execute(mod, cand, limit=60)
+                real, _ = violation_classes(out, mod.PROPERTY, known)
+                if any(v['class'] == vclass for v in real):
+                    cur = cand
+                    steps += 1
+                    child.send(('best', cur, steps))
         progress = True
         while progress and time.monotonic() < t_end:
             progress = False
@@ -481,7 +492,7 @@ def run_check(mod, tier, seed, runs=None, jobs=None, wall=None, selfcheck=True, 
                 vclass = v['class']
         small, steps = case, 0
         if vclass not in ('hang', 'hang-hard', 'crash'):
-            small, steps = minimise(mod, case, vclass, known, budget_s=plan.get('shrink_s', 60))
+            small, steps = minimise(mod, case, vclass, known, budget_s=plan.get('shrink_s', 60), violation=v)
             out = run_isolated(mod, small, limit=60)
             real, _ = violation_classes(out, prop, known)
             same = [x for x in real if x['class'] == vclass]
